@@ -5,12 +5,17 @@ pub mod c04;
 pub mod c05;
 pub mod c06;
 pub mod c07;
+#[cfg(any(feature = "native", feature = "rustls"))]
 pub mod c08;
 pub mod c09;
+#[cfg(any(feature = "native", feature = "rustls"))]
 pub mod c10;
 pub mod c11;
+#[cfg(any(feature = "native", feature = "rustls"))]
 pub mod c12;
+#[cfg(any(feature = "native", feature = "rustls"))]
 pub mod c13;
+#[cfg(any(feature = "native", feature = "rustls"))]
 pub mod c14;
 pub mod c15;
 pub mod c16;
@@ -21,7 +26,13 @@ pub mod c19;
 use crate::framework::Property;
 
 pub fn all() -> Vec<Property> {
-    vec![c01::property(), c02::property(), c03::property(), c04::property(), c05::property(), c06::property(), c07::property(), c08::property(), c09::property(), c10::property(), c11::property(), c12::property(), c13::property(), c14::property(), c15::property(), c16::property(), c17::property(), c18::property(), c19::property()]
+    #[allow(unused_mut)]
+    let mut v = vec![c01::property(), c02::property(), c03::property(), c04::property(), c05::property(), c06::property(), c07::property(), c09::property(), c11::property(), c15::property(), c16::property(), c17::property(), c18::property(), c19::property()];
+    // these need a TLS server (openssl) in the harness: absent from the TLS-less flavour used under Miri
+    #[cfg(any(feature = "native", feature = "rustls"))]
+    v.extend([c08::property(), c10::property(), c12::property(), c13::property(), c14::property()]);
+    v.sort_by_key(|p| p.id);
+    v
 }
 
 pub fn by_id(id: &str) -> Option<Property> {
